@@ -64,6 +64,19 @@ def make_tree(root):
         with open(os.path.join(root, "src", name), "wb") as f:
             f.write(data)
         files[name] = data
+    # member names whose length in the archive ("src/" + name) sits around a multiple of the 512-byte block: GNU long-name / PAX
+    # records whose payload ends exactly on, one before and one after a block boundary
+    d1, d2 = "p" * 200, "q" * 200
+    for total in (511, 512, 513, 1023, 1024, 1025):
+        dirs = [d1, d2] if total < 1000 else [d1, d2, "r" * 200, "s" * 200]
+        base = "/".join(dirs)
+        fname = "n" * (total - len("src/") - len(base) - 1)
+        name = base + "/" + fname
+        os.makedirs(os.path.join(root, "src", base), exist_ok=True)
+        data = bytes(rng.getrandbits(8) for _ in range(rng.choice([0, 10, 700])))
+        with open(os.path.join(root, "src", name), "wb") as f:
+            f.write(data)
+        files[name] = data
     return files
 
 
